@@ -141,3 +141,50 @@ def G0(ctx, effects=None):
         else:
             ctx.ok("G0", key, "guards mention only %d known terms" % len(allowed), [prog.fns[fk].loc()] if fk in prog.fns else [])
     return n
+
+
+def must_effects(prog):
+    """{function: sorted effect callees that occur on every normal path of the function (interprocedural must-analysis)} for the
+    non-closure functions of the crate that have any."""
+    def m(prog_, i, b, t, c):
+        k = prog_.callee_key(c)
+        return [k] if k in EFFECTS else []
+    roots = [prog.ident(k) for k, f in prog.fns.items() if f.kind != "Closure" and not f.j.get("stub")]
+    roots = [r for r in roots if r is not None]
+    ea = EventAnalysis(prog, m).solve(roots)
+    out = {}
+    for r in roots:
+        ms = ea.must_of(r)
+        if ms is TOP or not ms:
+            continue
+        out[prog.insts[r].key] = sorted(ms)
+    return out
+
+
+def G1(ctx, effects=None):
+    """No effect dropped from a path: every effect that occurred on every normal path of a function on the reference tree (directly or through callees) still does."""
+    prog = ctx.prog
+    from .. import normalize
+    ref = normalize.reference().get("must_effects")
+    if not ref:
+        ctx.missing("G1", "reference", "lint/reference.json has no must-effect table")
+        return
+    cur = getattr(prog, "_must_effects", None)
+    if cur is None:
+        cur = prog._must_effects = must_effects(prog)
+    n = 0
+    for fk, want in sorted(ref.items()):
+        if prog.fn(fk) is None:
+            continue                # anchor questions are for the other rules
+        want = [w for w in want if effects is None or EFFECTS.get(w) in effects]
+        if not want:
+            continue
+        n += 1
+        have = set(cur.get(fk, []))
+        lost = [w for w in want if w not in have]
+        if lost:
+            ctx.bad("G1", fk, "%s no longer performs the %s step (%s) on every path: on the reference tree every normal path did" %
+                    (fk, EFFECTS[lost[0]], lost[0].split("::")[-1]), prog.fns[fk].loc(), detail="%s:%s" % (EFFECTS[lost[0]], lost[0].split("::")[-1]))
+        else:
+            ctx.ok("G1", fk, "still performs on every path: %s" % ", ".join(sorted({EFFECTS[w] for w in want})), [prog.fns[fk].loc()])
+    return n
